@@ -100,10 +100,11 @@ pub struct Opts {
 }
 
 pub fn every_k(word: &str, k: usize) -> Vec<usize> {
+    // a split point after every k-th character, but never directly after a space
     let n = word.len();
     word.char_indices()
         .enumerate()
-        .filter(|(cnt, (idx, _))| *cnt > 0 && cnt % k == 0 && *idx > 0 && *idx < n)
+        .filter(|(cnt, (idx, _))| *cnt > 0 && cnt % k == 0 && *idx > 0 && *idx < n && !word[..*idx].ends_with(' '))
         .map(|(_, (idx, _))| idx)
         .collect()
 }
